@@ -135,6 +135,26 @@ def sentences(got, data, T):
     # a name can be default-trusted for one node kind and untrusted for another; rows do not say which kind they are,
     # so the per-row sentences only use names that no kind trusts by default
     bad = {b for b in bad if b not in all_defaults()}
+    # a protocol-0 FunctionNode shows its header name but audits the name in its content: its row says nothing about the header name
+    try:
+        with zipfile.ZipFile(io.BytesIO(data)) as z:
+            sch = json.loads(z.read("schema.json"))
+        shown_not_audited = set()
+
+        def scan(st):
+            if isinstance(st, dict):
+                if st.get("__loader__") == "FunctionNode" and isinstance(st.get("content"), dict) and "module_path" in st["content"]:
+                    shown_not_audited.add(f"{st.get('__module__')}.{st.get('__class__')}")
+                for v in st.values():
+                    scan(v)
+            elif isinstance(st, list):
+                for v in st:
+                    scan(v)
+
+        scan(sch)
+        bad -= shown_not_audited
+    except Exception:
+        pass
     rows = got["walk"]
     for i, r in enumerate(rows):
         named = not r.val.startswith(("json-type(", "b'", 'b"', "bytearray("))
